@@ -1,5 +1,6 @@
 import Ptn.C16.Model
 import Ptn.C16.TtndoModel
+import Ptn.C16.TensorProduct
 import Ptn.C04.Driver
 /-! Line-protocol handler for C16 (core Lean only).  Identifiers travel hex-encoded (bytes of the
 Python string; `-` is the empty identifier), so that the model works on the real strings.
@@ -13,6 +14,8 @@ Python string; `-` is the empty identifier), so that the model works on the real
                                             bra copy / operator tensor of ket node k are named gB<k>_<n> gBP<k> / gO<k>_<n> gOO<k> gOI<k>):
                                             `legs … | binds …` in the leg tokens of C04 (root legs BK0 BB0 BO0)
   ttno <root> <i>:<kids>;<operator kids> … → `ttndo_ttno_expectation_value` with a TTNO on the same tree
+  tprod <sites|-> <root> <i>:<kids>;- …   → `tensor_product_expectation_value` with one single-site operator (legs gOO<k> gOI<k>)
+                                            on the ket copy of every listed state node (comma separated, dict order; `-`: empty product)
 -/
 namespace Ptn.C16
 
@@ -90,6 +93,13 @@ def handle (args : List String) : String :=
     match Ptn.C04.parseTreeCase root entries with
     | some (t, _) => Ptn.C04.showT (Ttndo.traceTtndo (Ttndo.ttndoNetK (Ttndo.ketTree t)))
     | none => "bad-op"
+  | "tprod" :: sites :: root :: entries =>
+    match Ptn.C04.parseTreeCase root entries,
+          (if sites = "-" then some [] else (sites.splitOn ",").mapM String.toNat?) with
+    | some (t, _), some ss =>
+      if ¬ ss.all (fun s => t.ids.contains s) ∨ ss.eraseDups.length ≠ ss.length then "bad-op" else
+      Ptn.C04.showT (Ttndo.tensorProductExpectationValue (Ttndo.ttndoNetK (Ttndo.ketTree t)) (ss.map Ttndo.ketOf))
+    | _, _ => "bad-op"
   | "ttno" :: root :: entries =>
     match Ptn.C04.parseTreeCase root entries with
     | some (t, other) =>
